@@ -367,7 +367,7 @@ OBLIGATIONS = {
 
 def _family(tier: str, seed: int) -> List[Any]:
     if tier == "quick":
-        return skeletons.gen(4, 3, limit=40, seed=seed)
+        return skeletons.gen(4, 3, limit=24, seed=seed)
     return skeletons.gen(5, 3, limit=400, seed=seed)
 
 
@@ -410,16 +410,19 @@ def items(tier: str, seed: int) -> List[Dict[str, Any]]:
     for sid, spec in fam:
         out.append({"ob": "step_node", "params": {"sid": sid, "spec": spec}, "timeout": 150 if quick else 300,
                     "label": f"step_node[{sid}]"})
-    L = 5 if quick else 7
     str_skels = ["CUR2", "CUR4", "CUR8", "CUR9"] if quick else list(skeletons.CURATED)
     for sid in str_skels:
         spec = skeletons.CURATED[sid]
         n = _count_nodes(spec)
         srcs = range(n) if not quick else _spread(n)
         for s in srcs:
+            # '#alpha' / '#beta' custom ids of CUR8 need 5-6 characters
+            L = (5 if sid == "CUR8" else 4) if quick else (7 if sid == "CUR8" else 6)
+            if s == 0 and not quick:
+                L -= 1  # the root as source resolves the most spellings
             out.append({"ob": "step_string", "params": {"sid": sid, "spec": spec, "maxlen": L, "src": s},
                         "timeout": 240 if quick else 900, "path_timeout": 30, "label": f"step_string[{sid},src={s},L={L}]"})
-    for sid in (["CUR1", "CUR8"] if quick else ["CUR1", "CUR2", "CUR8", "CUR9"]):
+    for sid in ([] if quick else ["CUR1", "CUR2", "CUR8", "CUR9"]):
         spec = skeletons.CURATED[sid]
         out.append({"ob": "step_unres", "params": {"sid": sid, "spec": spec, "maxlen": 2 if quick else 3, "alphabet": _alphabet(spec)},
                     "timeout": 240 if quick else 900, "label": f"step_unres[{sid}]"})
